@@ -75,16 +75,24 @@ def build(sh, precision=None, normalize=True, rational=None, meta=None):
         o.degree = sh["degs"][0]
         o.set_ctrlpts(copy.deepcopy(sh["cp"]))
         o.knotvector = list(sh["kvs"][0])
-    elif kind == "surface":
-        o = mod.Surface(**kw)
-        o.degree_u, o.degree_v = sh["degs"]
-        o.set_ctrlpts(copy.deepcopy(sh["cp"]), *sh["sizes"])
-        o.knotvector_u, o.knotvector_v = [list(k) for k in sh["kvs"]]
     else:
-        o = mod.Volume(**kw)
-        o.degree_u, o.degree_v, o.degree_w = sh["degs"]
+        o = (mod.Surface if kind == "surface" else mod.Volume)(**kw)
+        # the three equivalent ways of stating the degrees: per direction, as one list, through the orders
+        how = sum(sh["degs"]) % 3
+        if how == 0:
+            for d, p in zip("uvw", sh["degs"]):
+                setattr(o, "degree_" + d, p)
+        elif how == 1:
+            o.degree = list(sh["degs"])
+        else:
+            for d, p in zip("uvw", sh["degs"]):
+                setattr(o, "order_" + d, p + 1)
         o.set_ctrlpts(copy.deepcopy(sh["cp"]), *sh["sizes"])
-        o.knotvector_u, o.knotvector_v, o.knotvector_w = [list(k) for k in sh["kvs"]]
+        if sum(sh["sizes"]) % 2:
+            o.knotvector = [list(k) for k in sh["kvs"]]
+        else:
+            for d, k in zip("uvw", sh["kvs"]):
+                setattr(o, "knotvector_" + d, list(k))
     apply_meta(o, meta)
     return o
 
@@ -201,7 +209,10 @@ class Eq(Family):
                 elif comp == "size":
                     sz = list(b.cpsize)
                     sz[c["dir"]] += 1
-                    b.cpsize = sz
+                    if sh["kind"] != "curve" and sum(sz) % 2:
+                        setattr(b, "ctrlpts_size_" + "uvw"[c["dir"]], sz[c["dir"]])     # the per-direction setter
+                    else:
+                        b.cpsize = sz
             cp = copy.deepcopy(a)
             meta_ok = (cp.id == a.id and cp.name == a.name and cp.opt == a.opt and cp.pdimension == a.pdimension and cp.rational == a.rational)
             res = {"meta_ok": meta_ok, "eq_ab": a == b, "eq_ba": b == a, "ne_ab": a != b, "ne_ba": b != a, "eq_aa": a == a, "ne_aa": a != a,
